@@ -6,6 +6,7 @@ Translated, from the CURRENT source text (stdlib `ast` only, nothing of cogent3 
     pairwise_distance_numba.fill_diversity_matrix   (the loop body becomes a step function folded over the columns)
     fast_distance._hamming, _jc69_from_matrix, _tn93_from_matrix, _logdetcommon, _paralinear, _logdet
     fast_distance.get_matrix_diff_coords            (a list comprehension)
+    fast_distance.TN93Pair.__init__                 (the coordinate constants handed to _tn93_from_matrix: `tn93_func_args`)
 
 Each numpy operation is mapped to ONE primitive of lean/CogentModel/Model/DistanceNumpy.lean (4x4 matrices, exact
 rationals); float literals are converted exactly (0.75 -> 3/4); `numpy.log` becomes an uninterpreted function `L`
@@ -559,6 +560,129 @@ def translate_diff_coords(fdef: ast.FunctionDef) -> str:
 
 
 # --------------------------------------------------------------------------
+# TN93Pair.__init__: the constants handed to _tn93_from_matrix
+# --------------------------------------------------------------------------
+def translate_tn93_init(cdef: ast.ClassDef) -> str:
+    """TN93Pair.__init__ -> `tn93_func_args pur_indices pyr_indices dim` = `self._func_args[1:]`.
+    `get_purine_indices(self.moltype)` / `get_pyrimidine_indices(self.moltype)` depend on the alphabet object and are the
+    parameters (the harness compares them with the real ones at run time); `self._dim` is the parameter `dim`.
+    Types: IL list of naturals, CL list of coordinate pairs."""
+    init = [m for m in cdef.body if isinstance(m, ast.FunctionDef) and m.name == "__init__"]
+    if len(init) != 1:
+        raise Unsupported("TN93Pair.__init__ not found")
+    env = {}  # attribute -> (type, lean name)
+    lines = []
+    ver = {}
+
+    def fresh(attr):
+        ver[attr] = ver.get(attr, 0) + 1
+        return f"{lname(attr)}_{ver[attr]}"
+
+    def sattr(n):
+        return n.attr if isinstance(n, ast.Attribute) and isinstance(n.value, ast.Name) and n.value.id == "self" else None
+
+    def ex(n):
+        a = sattr(n)
+        if a == "_dim":
+            return "N", "dim"
+        if a is not None:
+            if a not in env:
+                raise Unsupported(f"self.{a} read before it is assigned")
+            if env[a][0] == "OPAQUE":
+                raise Unsupported(f"self.{a} is not translated")
+            return env[a]
+        if isinstance(n, ast.BinOp) and isinstance(n.op, ast.Add):
+            (ta, x), (tb, y) = ex(n.left), ex(n.right)
+            if ta == tb and ta in ("IL", "CL"):
+                return ta, f"({x} ++ {y})"
+            raise Unsupported("+ of non-lists")
+        if isinstance(n, ast.Call) and isinstance(n.func, ast.Name) and not n.keywords:
+            f = n.func.id
+            if f in ("get_purine_indices", "get_pyrimidine_indices") and len(n.args) == 1 and sattr(n.args[0]) == "moltype":
+                return "IL", "pur_indices" if f == "get_purine_indices" else "pyr_indices"
+            if f == "get_matrix_diff_coords" and len(n.args) == 1:
+                t, x = ex(n.args[0])
+                if t == "IL":
+                    return "CL", f"(get_matrix_diff_coords {x})"
+            if f == "list" and len(n.args) == 1:
+                return ex(n.args[0])
+            if f == "range" and len(n.args) == 1:
+                t, x = ex(n.args[0])
+                if t == "N":
+                    return "IL", f"(List.range {x})"
+            raise Unsupported(f"call {f}")
+        if isinstance(n, ast.ListComp) and len(n.generators) == 1 and not n.generators[0].ifs:
+            g = n.generators[0]
+            t, x = ex(g.iter)
+            if t == "CL" and isinstance(g.target, ast.Tuple) and len(g.target.elts) == 2 and all(isinstance(e, ast.Name) for e in g.target.elts):
+                i, j = (e.id for e in g.target.elts)
+
+                def ie(m):
+                    if isinstance(m, ast.Name) and m.id in (i, j):
+                        return "c.1" if m.id == i else "c.2"
+                    if isinstance(m, ast.Constant) and isinstance(m.value, int) and not isinstance(m.value, bool) and m.value >= 0:
+                        return str(m.value)
+                    if isinstance(m, ast.BinOp) and isinstance(m.op, (ast.Add, ast.Mult)):
+                        return f"({ie(m.left)} {'+' if isinstance(m.op, ast.Add) else '*'} {ie(m.right)})"
+                    raise Unsupported("flattening expression")
+
+                return "IL", f"({x}.map fun c => {ie(n.elt)})"
+            raise Unsupported("comprehension shape")
+        raise Unsupported(f"expression {type(n).__name__} at line {getattr(n, 'lineno', '?')}")
+
+    result = None
+    func = None
+    for st in init[0].body:
+        if isinstance(st, ast.Expr) and isinstance(st.value, ast.Constant):
+            continue
+        if isinstance(st, ast.Expr) and isinstance(st.value, ast.Call) and isinstance(st.value.func, ast.Attribute) and st.value.func.attr == "__init__":
+            continue  # super().__init__(...)
+        if isinstance(st, ast.Assign) and len(st.targets) == 1 and sattr(st.targets[0]) is not None:
+            a = sattr(st.targets[0])
+            if a == "func":
+                if not isinstance(st.value, ast.Name):
+                    raise Unsupported("self.func")
+                func = st.value.id
+                continue
+            if a == "_func_args":
+                if not isinstance(st.value, ast.List) or not st.value.elts or sattr(st.value.elts[0]) != "_freqs":
+                    raise Unsupported("self._func_args is not [self._freqs, ...]")
+                result = [ex(e) for e in st.value.elts[1:]]
+                continue
+            if a == "_freqs":
+                env[a] = ("OPAQUE", None)
+                continue
+            t, x = ex(st.value)
+            nm = fresh(a)
+            lines.append(f"  let {nm} : {'List Nat' if t == 'IL' else 'List (Nat × Nat)'} := {x}")
+            env[a] = (t, nm)
+            continue
+        if isinstance(st, ast.For) and not st.orelse and isinstance(st.target, ast.Name) and len(st.body) == 1:
+            b = st.body[0]
+            ok = (isinstance(b, ast.Expr) and isinstance(b.value, ast.Call) and isinstance(b.value.func, ast.Attribute) and b.value.func.attr == "remove"
+                  and sattr(b.value.func.value) is not None and len(b.value.args) == 1 and isinstance(b.value.args[0], ast.Name)
+                  and b.value.args[0].id == st.target.id)
+            if ok:
+                a = sattr(b.value.func.value)
+                (t, x), (tl, l) = ex(b.value.func.value), ex(st.iter)
+                if t == tl == "CL":
+                    nm = fresh(a)
+                    lines.append(f"  let {nm} : List (Nat × Nat) := {l}.foldl (fun acc coord => acc.erase coord) {x}")
+                    env[a] = ("CL", nm)
+                    continue
+        raise Unsupported(f"TN93Pair.__init__: statement at line {st.lineno}")
+    if func != "_tn93_from_matrix":
+        raise Unsupported(f"TN93Pair.func is {func}")
+    if result is None or [t for t, _ in result] != ["IL"] * 5:
+        raise Unsupported("self._func_args is not [freqs, 5 index lists]")
+    return (
+        "/-- `TN93Pair.__init__`: `self._func_args[1:]` (pur_indices, pyr_indices, pur_coords, pyr_coords, tv_coords) -/\n"
+        "def tn93_func_args (pur_indices pyr_indices : List Nat) (dim : Nat) : List Nat × List Nat × List Nat × List Nat × List Nat :=\n"
+        + "\n".join(lines) + "\n  (" + ", ".join(x for _, x in result) + ")"
+    )
+
+
+# --------------------------------------------------------------------------
 def _funcs(path: Path):
     tree = ast.parse(path.read_text())
     return {n.name: n for n in tree.body if isinstance(n, ast.FunctionDef)}
@@ -583,6 +707,14 @@ def translate(src: Path):
             parts.append(translate_diff_coords(fd["get_matrix_diff_coords"]))
         except Unsupported as e:
             problems.append(f"get_matrix_diff_coords: {e}")
+    cls = [n for n in ast.parse((src / "evolve" / "fast_distance.py").read_text()).body if isinstance(n, ast.ClassDef) and n.name == "TN93Pair"]
+    if not cls:
+        problems.append("fast_distance.py: class TN93Pair not found")
+    else:
+        try:
+            parts.append(translate_tn93_init(cls[0]))
+        except Unsupported as e:
+            problems.append(f"TN93Pair.__init__: {e}")
     known = {}
     for name in ORDER:
         if name not in fd:
